@@ -189,6 +189,7 @@ def plan(prop, tier):
         P += S("release", "sets", n=300 if q else 4000, shards=2)
         P += S("release", "chains", shards=2, stride=40 if q else 6)
         P += S("release", "limits", n=100 if q else 1000)
+        P += S("release", "zst", depth=4)
         # lifetimes only (no contents / layout rules): a double drop that is the late consequence
         # of another defect is not masked by the rule that catches that defect first
         P += S("release", "hist", n=3000 if q else 20000, shards=2, profile="drops", ledger_only=1)
@@ -227,6 +228,7 @@ def plan(prop, tier):
         P += S("release", "hist", n=8000 if q else 40000, shards=4, profile="clone")
         P += S("release", "clones", n=6000 if q else 60000, shards=8)
         P += S("debug", "clones", n=2000 if q else 12000, shards=2)
+        P += S("release", "sets", n=1500 if q else 10000, shards=2)
         # the destination of a clone_from interrupted by a panic in Clone / Hash: it must have
         # discarded its previous contents and still be a map
         P += S("release", "fault", n=60 if q else 1500, shards=2 if q else 4, timeout=5400)
